@@ -73,7 +73,8 @@ PLAN = {
 from .targets import CLIENT_C02, CLIENT_C08, CLIENT_C06, CLIENT_SIDECARS
 CLIENT_ASSUMPTIONS = [
     "client side: a blocking send hands one frame to the manager, which processes a connection's frames in order (TCP FIFO); agreement is evaluated at quiescence",
-    "Client.__init__, Client._socket_connect and Client.disconnect are trusted contracts (socket set-up / tear-down), listed under assumed contracts",
+    "Client.__init__ and Client._socket_connect are trusted contracts (constructor, socket set-up), listed under assumed contracts; Client.disconnect is verified from source (socket.close is "
+    "an external contract); on entry it ASSUMES the object's type invariants - fewer than 2^31 frames sent, int16 module and host ids - instead of demanding them from every caller",
     "the body of a `with` on a context manager under contract is effect-free on the state the contract mentions and ends normally",
     "message type ids are int32 values",
 ]
@@ -90,7 +91,8 @@ PLAN["C08"] = dict(
         "header byte-identity is stated for every field except recv_time, which the reader stamps by definition of the field",
         "get_msg_cls(t) returns the class registered for t or raises UnknownMessageType"],
     explanation="ghost cursor (frame index, offset) on the client socket; _read_message returns frame i with header fields and payload identity as sent and leaves the cursor at frame i+1, or raises the "
-                "documented error having consumed the whole frame, or ConnectionLost with the client disconnected; read_message only returns subscribed types (current set), ACK on request")
+                "documented error having consumed the whole frame, or ConnectionLost with the client disconnected; a frame whose payload size differs from the local definition, or - with the sync check - whose "
+                "non-zero version differs from the local hash, is never returned, with or without payload; read_message only returns subscribed types (current set), ACK on request")
 PLAN["C06"]["functions"] = dict(quick=PLAN["C06"]["functions"]["quick"] + CLIENT_C06, thorough=MANAGER_ALL + CLIENT_C06)
 PLAN["C06"]["sidecars"] = CLIENT_SIDECARS
 PLAN["C06"]["assumptions"] = ENV_ASSUMPTIONS + CLIENT_ASSUMPTIONS
@@ -105,15 +107,21 @@ PLAN["C09"] = dict(
         "contextlib.contextmanager drives the generator: the with-body's exception is thrown at the yield",
         "NOT under contract (trusted, outside this check): String.__set__ / Char (ctypes store and memset), ArrayField.__setitem__/__set__ (ctypes slice store after validation), Struct / StructArray "
         "class checks, Byte.__set__; their validate_* helpers that are under contract are the numeric cores the property's boundary cases live in"],
+    level_text="SMT-discharged contracts (pyvc/z3, real source re-read on every run) on the validator functions - see the explanation below - plus ONE applicability obligation decided syntactically "
+               "(by_backend 'dataflow'): validators._VALIDATION_ENABLED, which the sidecar models as a context variable, is bound to contextvars.ContextVar(..., default=True) and never rebound, so "
+               "the single-context contracts (validation in force outside a disable block) hold in every thread and task; a process-wide replacement is refuted and replayed with two threads. ",
     explanation="each validator function is verified once per kind of python value (int, bool, float, str, None, list of ints/floats, ctypes array, list of ARBITRARY python values - "
                 "ints, floats and other objects mixed - for the integer, byte and double array checks): validate_one / validate_many raise exactly for values outside "
                 "the field's domain (range for the 8 integer classes, overflow-to-infinity after rounding for Float/Double incl. next to NaN, length/ASCII for strings); __set__ stores only after "
                 "validation (refusal leaves the message untouched: frame) and reads back the assigned value; disable_message_validation restores the flag on both continuations of its yield")
+PLAN["C09"]["level_text"] = PLAN["C09"]["level_text"] + PLAN["C09"]["explanation"]
 PLAN["C11"] = dict(
     functions=dict(quick=PARSER_C11, thorough=PARSER_C11), sidecars=["contracts.parser_contracts"],
     assumptions=ENV_ASSUMPTIONS[:1] + [
         "Field.size / Field.alignment / SDF.size are opaque getters over immutable ghost values (size > 0, alignment in {1,2,4,8}, size a multiple of alignment: the type invariant, which natives satisfy by table and nested structs by check_alignment's own postcondition)",
-        "lemma packed_is_natural (assumed): aligned, contiguous fields from offset 0 whose end is a multiple of every member alignment have ctypes.sizeof == sum of field sizes (get_ctype_size contract)",
+        "lemma packed_is_natural - aligned, contiguous fields from offset 0 whose end is a multiple of every member alignment have natural size == sum of field sizes (get_ctype_size contract) - "
+        "is PROVED on every run (pyvc/lemmas.py: base / step / no-trailing-padding VCs, z3) from the C ABI layout rule, which is what stays assumed: each field starts at the least multiple of "
+        "its alignment after the previous field, the size is rounded up to the strictest member alignment",
         "the Field objects of a struct are pairwise distinct; Optional[int] lengths are modelled as ints with None == 0"],
     explanation="check_alignment: loop invariants over (n, ptr, npad) and two ghost position maps (user field -> position, position -> user field or padding) give: every offset a multiple of the "
                 "field's alignment, fields contiguous from 0, end of struct a multiple of every member alignment (so the final ctypes size assert cannot fail), only char paddings inserted, user "
@@ -123,7 +131,11 @@ PLAN["C12"] = dict(
     assumptions=ENV_ASSUMPTIONS[:1] + [
         "Parser.check_name (regex) and trim_root / pathlib are external; ruamel.yaml rejects duplicate keys inside one file",
         "handle_reserve (integer entries as they are, spans with both ends, every reserved id registered through handle_signal) is a dataflow contract decided syntactically "
-        "(pyvc/importcheck.py), the regex is not modelled; the call sites of check_duplicate_name in the five section handlers are not under contract (the function itself is, for the five-namespace tuple)",
+        "(pyvc/importcheck.py), the regex is not modelled; handle_struct and handle_message_def (their calls of the name check; field parsing) are not under contract - "
+        "handle_string, handle_expression, handle_alias and handle_signal are, with the name check inlined from source",
+        "Parser.expand_expression (regex macro expansion + eval), hashlib.sha256, textwrap.dedent are external; the engine's str.encode() is the ASCII codec (an extra exceptional path, nothing registered on it)",
+        "parse_file's frame on self.current_file (restored on every normal exit, set to the file being read before parse_text) - on which the verified range clauses of handle_host_id / "
+        "handle_module_id depend, since they exempt ids by the current file's name - is decided by an abstract interpretation of the one function (pyvc/importcheck.py), not by SMT",
         "parse_file's import de-duplication ('every file is read once however it is reached') is decided by a syntactic dataflow contract on the one function (pyvc/importcheck.py: canonical key, "
         "skip test on that key, append before read), not by SMT; pathlib.resolve() is assumed canonical"],
     explanation="registry invariant (every entry stored under its own name, ids injective) preserved by handle_host_id / handle_module_id; acceptance implies no id or name clash with any registered "
@@ -131,21 +143,32 @@ PLAN["C12"] = dict(
                 "import_coredefs exemptions); validate_msg_id likewise for messages, signals and reserved ids")
 from pyvc import tables as _tables, detcheck as _detcheck, hashcheck as _hashcheck, importcheck as _importcheck, rgcheck as _rgcheck
 from .logger_contracts import LOGGER_C17, LOGGER_SIDECARS
-PLAN["C12"]["extra"] = [_importcheck.check, _importcheck.check_reserve, _importcheck.check_current_file]
-PLAN["C11"]["extra"] = [_importcheck.check_layout_pass]
+PLAN["C12"]["extra"] = [_importcheck.check, _importcheck.check_reserve, _importcheck.check_current_file, _importcheck.check_name_sites]
+from pyvc import lemmas as _lemmas
+PLAN["C11"]["extra"] = [_importcheck.check_layout_pass, _lemmas.check_packed_is_natural]
 from pyvc import bindcheck as _bindcheck
 PLAN["C09"]["extra"] = [_bindcheck.check]
 PLAN["C11"]["level_text"] = ("SMT-discharged contracts (pyvc/z3, real source re-read on every run) for Parser.check_alignment and validate_msg_def - see the explanation below - plus one contract decided "
                             "by a syntactic path analysis, not by SMT (by_backend 'dataflow' in the evidence): every normal exit of Parser.add_fields, the field-list-reuse branch included, is preceded "
-                            "by validate_msg_def, so every definition goes through the verified layout pass; it has a replay on the real parser. " + PLAN["C11"]["explanation"])
+                            "by validate_msg_def, so every definition goes through the verified layout pass; it has a replay on the real parser. The lemma that links the proved layout "
+                            "predicate to 'no hidden padding' (packed_is_natural) is itself proved by z3 on every run from the ABI's layout recursion. " + PLAN["C11"]["explanation"])
 PLAN["C12"]["level_text"] = ("Mixed. SMT-discharged contracts (pyvc/z3, real source re-read on every run) for handle_host_id, handle_module_id, validate_msg_id and check_duplicate_name over the five shared "
                             "namespaces: the registries stay injective, acceptance implies no id / name clash anywhere in the import closure, each error is raised only when that clash exists, ranges "
                             "are enforced. Two further contracts are decided by a syntactic dataflow analysis of one function each, not by SMT, and are labelled so in the evidence (by_backend "
                             "'dataflow'): parse_file's de-duplication key is the canonical path (every file read once however it is reached) and handle_reserve registers every id of a reserved "
-                            "entry (spans with both ends). Both have replays on the real parser. Not under contract: the call sites of check_duplicate_name in the section handlers, handle_reserve's regex.")
+                            "entry (spans with both ends). Both have replays on the real parser. Also SMT-discharged from their real source: handle_string, handle_expression (int and str variants), "
+                            "handle_alias and handle_signal - each accepts a name only if it is free in all five shared namespaces (the name check is inlined from source at its call site, so a "
+                            "handler that checks fewer namespaces fails), registers exactly the new item under its own name, reports DuplicateNameError only when a clash exists and leaves the "
+                            "tables untouched on every error; handle_signal registers the very id it validated. A third dataflow contract: parse_file restores self.current_file on every normal "
+                            "exit (the 'already included' return too) and sets it to the file being read before parse_text - the range clauses exempt ids by that file's name. "
+                            "Not under contract: handle_struct / handle_message_def (their call of the name check, field parsing), handle_reserve's regex, expand_expression.")
 PLAN["C04"] = dict(
     functions=[], extra=[_tables.check], level="other",
-    level_text="PARTIAL. Only clause T1 of the design is decided: the six hand-written native type tables (parser supported_types, Parser.get_ctype_cls, python type_map and "
+    level_text="PARTIAL (T1 + attribute agreement + three dataflow contracts; emitted text is not modelled). Added to T1: (i) MessageMeta.__new__ turns EVERY class-body entry that has a _ctype "
+               "attribute into the ctypes field ('_' + key, entry._ctype) - no condition on the key's spelling guards the probe (dataflow contract on the real AST; replayed with a field named "
+               "_rsvd against gcc sizeof/offsetof); (ii) in every `#define <name> <value>` the C back end prints, a literal blank separates name and value for every name length (a format "
+               "spec pads, it does not separate; replayed with 52- and 57-character names); (iii) each back end prints each kind of model item from the same attributes of the parser model. "
+               "T1 as before: the six hand-written native type tables (parser supported_types, Parser.get_ctype_cls, python type_map and "
                "desctype_map, c99, javascript, matlab type_map) are read from the AST of the current tree and 27 names x 6 tables = 162 ground obligations (same width, same signedness/kind, "
                "every name the parser accepts has an entry in every table) are discharged by z3. That every back end prints the same ids, hashes, field order and array lengths from the shared "
                "parser model (T2-T7: emitted text against target-language readers) is NOT decided: the Emit domain of DESIGN 2.5 was not built. Struct size/offset agreement rests on C11.",
@@ -157,7 +180,10 @@ PLAN["C16"] = dict(
     functions=[], extra=[_detcheck.check], level="other",
     level_text="PARTIAL. (a) determinism: one effect obligation per function of parser.py, compile.py and compilers/*.py - it reads no clock, random source, environment variable, object "
                "identity or hash and iterates over no set - discharged by a syntactic frame analysis of the AST (a frame condition, not an SMT proof); (c) currency: the ground obligation "
-               "compile(core_defs.yaml) == shipped core_defs.py (byte for byte, two runs equal) is decided by evaluating the real compiler on the real files. (b) the combined-YAML round trip is NOT decided.",
+               "compile(core_defs.yaml) == shipped core_defs.py (byte for byte, two runs equal) is decided by evaluating the real compiler on the real files. (b) the combined-YAML round trip is NOT decided "
+               "(a bounded stand-in on the one shipped closure runs with the check and is reported under `bounded`). The effect obligation also covers state shared between compilations in one process: "
+               "no function mutates a module-level container or lets a module-level container of containers escape other than through deepcopy (replayed with two Parser objects in one process); "
+               "the legacy header compiler python_v1.py, whose cumulative typedef table is by design, is excepted and listed.",
     technique="contract-based frame conditions (effect obligations per function, decided syntactically) plus one ground obligation decided by evaluating the real compiler; no SMT",
     assumptions=["library calls (ruamel.yaml, black, hashlib, textwrap, re, pathlib) are deterministic functions of their arguments", "dicts iterate in insertion order (language guarantee)"],
     explanation="determinism as a frame condition over every compiler function; currency of core_defs.py as a ground fact; combined-YAML clause not decided")
@@ -167,7 +193,8 @@ PLAN["C13"] = dict(
     level_text="PARTIAL, two deciders. (1) Template contract on Parser.handle_message_def / handle_signal / handle_struct: the stored hash is sha256 of a text whose template - computed from the real AST on "
                "every run by abstract evaluation of the string-building statements - depends on nothing but name, id and the (field name, type text) pairs in document order, contains each of them "
                "verbatim on every branch, and parses uniquely (separator after every element outside the element's lexical class), so equal element lists give equal hashes anywhere and different lists "
-               "give different hashed texts; the id hashed is the id registered; all six emit sites of the four back ends print hash[:8]. This is a syntactic template analysis, not an SMT proof; "
+               "give different hashed texts; the id hashed is the id registered; all six emit sites of the four back ends print hash[:8], and in the C header's `#define HASH_<name> 0x<hash>` a literal "
+               "blank separates the macro name from the value for every name length (replayed with a 52-character message name). This is a syntactic template analysis, not an SMT proof; "
                "constructs outside its language are reported undecided. (2) Client.send_message stamps header.version = msg_data.type_hash: postcondition proved by pyvc/z3 on the real function. "
                "Not decided: collision-freedom of sha256 / its 32-bit prefix; dedent (assumed identity on texts starting at column 0); field-list reuse hashes the list's name only (known limitation, DESIGN 8 #18).",
     technique="contract-based: template postcondition on the three hash-building handlers decided by abstract evaluation of the real AST (no SMT), emit-site obligations, and a z3-discharged postcondition of Client.send_message",
